@@ -121,7 +121,14 @@ func padRunes(s string, w int) string {
 	return s + strings.Repeat(" ", w-n)
 }
 
+// two renderings: multi-byte runes in the data cells, or in the marker cells with pure-ASCII data cells after them (a
+// byte-indexed slice of an ASCII cell looks plausible there)
+var fixedPayloadAlt = false
+
 func fixedPayload() flPayload {
+	if fixedPayloadAlt {
+		return flPayload{"fixed-ascii-after-multibyte", map[string]string{"a": "ax", "b": "b 9", "H": "Hé世🙂", "F": "Fé"}}
+	}
 	return flPayload{"fixed", map[string]string{"a": "é世 x", "b": " b🙂", "H": "H-é", "F": "F"}}
 }
 
@@ -288,6 +295,7 @@ func c06Replay(args []string) int {
 		}
 		pl := pls[pi]
 		crlf, lastTerm := r.Intn(3) == 0, r.Intn(3) != 0
+		fixedPayloadAlt = r.Intn(2) == 0
 		expect := func(p flPayload, fixed bool) []obsRec {
 			var out []obsRec
 			for ri, rec := range c.Recs {
